@@ -269,6 +269,12 @@ def run(e: Engine, rep: Report):
              'a shared object the verdict sticks for every later command '
              'and session)')
     r716(e, rep)
+    rep.rule('R7.17', 'the close signal is nobody\'s error: StopIteration '
+             'raised under a command (or the greeting) is caught only by an '
+             'arm that names it - never by `except Exception` (which '
+             'answers with an "unhandled error" 421 of its own: a second '
+             'final reply after the 221 / 421 that ended the session)')
+    r717(e, rep)
     rep.floor('R7.1', 10, 'callback sites')
     rep.floor('R7.3', 12, 'command handlers')
     rep.floor('R7.4', 10, 'mutable reply sends')
@@ -1292,6 +1298,55 @@ def r712(e: Engine, rep: Report):
     if n < 2:
         rep.error('anchor vanished: except arms around the dispatch in '
                   'Server.handle (%d < 2)' % n)
+
+
+# ------------------------------------------------------------------ R7.17
+def r717(e: Engine, rep: Report):
+    STOP = 'builtins.StopIteration'
+    ctx = e.method_ctx(SERVER, 'handle')
+
+    def runs_command(n):
+        nm = e.call_name(n) or ''
+        return n.kind == 'call' and (nm == '_handle_command' or
+                                     nm.startswith('_command_'))
+    g = e.build(ctx, inline=e.inline_same_self(
+        deny=['_handle_command', '_call_custom_handler', '_recv_command',
+              '_encrypt_session']),
+        max_depth=4, raises=lambda b, n, r: {STOP} if runs_command(n)
+        else set(), assert_raises=False)
+    where = ctx.func.qname
+    rep.functions.add(where)
+    sites = [n for n in g.nodes if runs_command(n)]
+    if not sites:
+        rep.error('anchor vanished: command dispatch below Server.handle')
+        return
+    n = 0
+    seen = set()
+    for a in g.nodes:
+        for label, s2 in a.succ:
+            if not (isinstance(label, tuple) and len(label) > 1 and
+                    label[1] == STOP and s2.kind == 'handler'):
+                continue
+            if s2.id in seen:
+                continue
+            seen.add(s2.id)
+            n += 1
+            rep.evaluations += 1
+            ts = s2.extra.get('types', [])
+            rep.check(STOP in ts, 'R7.17', where,
+                      'arm `except %s` that receives the close signal'
+                      % (ast.unparse(s2.ast.type) if s2.ast.type is not None
+                         else ''),
+                      'the StopIteration a command raises after its 221 / '
+                      '421 was sent is caught by `except %s`: the arm '
+                      'treats it as a failure and answers once more (421 '
+                      'unhandled error) - two final replies for one '
+                      'command' % (ast.unparse(s2.ast.type)
+                                   if s2.ast.type is not None else ''),
+                      loc=s2.loc(), reason='the arm names StopIteration')
+    if n < 1:
+        rep.error('anchor vanished: arm that receives the close signal in '
+                  'Server.handle')
 
 
 # ------------------------------------------------------------------ R7.15
